@@ -388,7 +388,7 @@ theorem stream_facts {w : World} {s : Source} {sp : SP} {c : Cache} {d : CData}
     start = sp.offset ∧ 0 ≤ sp.offset ∧ (run w s sp c d).mt.ps.full = false ∧
     (sp.runId = s.id1 ∨ sp.runId = s.id2) ∧
     (∀ n, sp.offset ≤ n → byte n = w.hist s.id1 n) ∧
-    (sp.runId ≠ s.id1 → c.runId ≠ s.id1 → sp.offset ≤ s.switchOff) := by
+    (sp.runId ≠ s.id1 → NotYetCurrent s c → sp.offset ≤ s.switchOff) := by
   rcases run_spec (w := w) (sp := sp) (d := d) hs hc with hF | hK | hC
   · rw [hF.delivery] at h; cases h
   · have hcid := hK.cid
@@ -426,7 +426,11 @@ theorem stream_facts {w : World} {s : Source} {sp : SP} {c : Cache} {d : CData}
             exact hconv n (by omega) (by omega)
       · intro _ hc1
         rcases hcid with e | ⟨_, hsw⟩
-        · exact absurd e hc1
+        · rcases hc1 with hc1 | ⟨hr, ha⟩
+          · exact absurd e hc1
+          · have := hK.lat_nonneg
+            rw [latest_none ha hr] at this
+            omega
         · omega
     · rw [hdel] at h; cases h
   · rw [hC.delivery] at h
